@@ -358,7 +358,7 @@ type Node struct {
 	// InPayNotFound: status lookups made while a pay call for the hash is executing are
 	// answered "payment not found" instead of "pending"
 	InPayNotFound bool
-	inPay map[string]bool
+	inPay         map[string]bool
 	// FailCreateInvoice makes CreateInvoice return an error.
 	FailCreateInvoice bool
 	FailInvoiceStatus bool
